@@ -148,6 +148,36 @@ fn eval_level<F: Function<Trace = VmTrace>>(f: &F, vs: &[Var], inp: &Input, samp
     (tr, outs, so, ok)
 }
 
+
+/// The judgement the model makes of a trace returned by the JIT (cmds.ml, jit_trace_ok), made here against the
+/// interpreter on the same tape: a point trace must be the interpreter's; an interval entry must be the
+/// interpreter's or the more conservative Both.  Returns the kind of the disagreement.
+fn judge_jit_trace(dag: &Dag, vmf: &GenericVmFunction<12>, vs: &[Var], inp: &Input, samples: &[Vec<f32>], jit_tr: &Option<Vec<u8>>) -> Option<&'static str> {
+    let useful = |t: &Option<Vec<u8>>| t.as_ref().map(|v| v.iter().any(|c| *c == 1 || *c == 2)).unwrap_or(false);
+    match inp {
+        Input::Point(p) => { let Ok((_, vt)) = point_eval(vmf, vs, p) else { return None };
+            let same = match (jit_tr, &vt) { (Some(a), Some(b)) => a == b, _ => false };
+            if same || (!useful(jit_tr) && !useful(&vt)) { None } else { Some("jit-point-trace-differs") } }
+        Input::Box_(b) => { let Ok((o, vt)) = interval_eval(vmf, vs, b) else { return None };
+            let Some(g) = jit_tr else { return None };
+            let mine = vt.unwrap_or_else(|| vec![3; g.len()]);
+            if g.len() == mine.len() && g.iter().zip(&mine).all(|(gc, mc)| gc == mc || *gc == 3) { None }
+            // the interpreter makes every choice Both once an operand is NaN; the JIT's comparisons look at one bound only
+            else {
+                // is an interval with exactly one NaN bound met by the JIT on this box?  (every node of the expression exported)
+                let nodes: Vec<fidget_core::context::Node> = (0..dag.ctx.len()).map(fidget_core::context::Node::verif_new)
+                    .filter(|nd| !matches!(dag.ctx.get_op(*nd), Some(fidget_core::context::Op::Const(_)))).collect();
+                let jo = JitFunction::new(&dag.ctx, &nodes).ok().and_then(|jf| interval_eval(&jf, vs, b).ok()).map(|(jo, _)| jo).unwrap_or_default();
+                let half = jo.iter().any(|i| i.lower().is_nan() != i.upper().is_nan());
+                // a node whose value at a sample point of the box is NaN although its JIT interval is not the NaN interval
+                // (0 * inf inside an interval product): KNOWN_FINDINGS C04 nan-hidden-by-interval
+                let hidden = GenericVmFunction::<255>::new(&dag.ctx, &nodes).ok().map(|vf| samples.iter().any(|sp| match point_eval(&vf, vs, sp) {
+                    Ok((pv, _)) => pv.iter().zip(&jo).any(|(v, i)| v.is_nan() && !i.lower().is_nan() && !i.upper().is_nan()), Err(_) => false })).unwrap_or(false);
+                let _ = o;
+                if half { Some("half-nan-interval") } else if hidden { Some("nan-hidden-by-interval") } else { Some("jit-interval-trace-narrower") } } }
+    }
+}
+
 fn all_both(n: usize) -> Vec<u8> { vec![3; n] }
 
 /// VM backend, parent budget N, child budget M
@@ -194,7 +224,11 @@ fn run_vm<const N: usize, const M: usize>(dag: &Dag, inp: &Input, samples: &[Vec
 
 /// JIT backend (register budget fixed by the backend); the printed line has the
 /// same shape, with N = M = 12 for the model.
-fn run_jit(dag: &Dag, inp: &Input, samples: &[Vec<f32>], given: &mut Vec<Option<Vec<u8>>>) -> (String, Vec<Level>) {
+fn run_jit(dag: &Dag, inp: &Input, samples: &[Vec<f32>], given: &mut Vec<Option<Vec<u8>>>, notes: &mut Vec<String>) -> (String, Vec<Level>) {
+    let (t, l) = run_jit_inner(dag, inp, samples, given, notes);
+    (if notes.is_empty() { t } else { t + " | jt bad" }, l)
+}
+fn run_jit_inner(dag: &Dag, inp: &Input, samples: &[Vec<f32>], given: &mut Vec<Option<Vec<u8>>>, notes: &mut Vec<String>) -> (String, Vec<Level>) {
     let mut text = String::new();
     let mut levels = vec![];
     let f0 = match catch_unwind(AssertUnwindSafe(|| JitFunction::new(&dag.ctx, &dag.roots).unwrap())) {
@@ -205,6 +239,7 @@ fn run_jit(dag: &Dag, inp: &Input, samples: &[Vec<f32>], given: &mut Vec<Option<
     write!(text, "p {} | pr {}", ssa_section(d0.data()), reg_section(d0.data())).unwrap();
     let (tr0, o0, s0, ok0) = eval_level(&f0, &dag.vs, inp, samples, 0, &mut text, true);
     given.push(tr0.clone());
+    if ok0 { if let Some(k) = judge_jit_trace(dag, d0, &dag.vs, inp, samples, &tr0) { notes.push(format!("kind={k} level=0")); } }
     levels.push(Level { text: String::new(), outs: o0, slice_outs: s0, ok: ok0, vars: var_order(&f0), noutputs: f0.output_count() });
     write!(text, " | tr {}", fmt_trace(&tr0)).unwrap();
     if !ok0 { return (text, levels); }
@@ -220,6 +255,7 @@ fn run_jit(dag: &Dag, inp: &Input, samples: &[Vec<f32>], given: &mut Vec<Option<
     write!(text, " | s1 {} | r1 {}", ssa_section(d1.data()), reg_section(d1.data())).unwrap();
     let (tr1, o1, s1, ok1) = eval_level(&f1, &dag.vs, inp, samples, 1, &mut text, true);
     given.push(tr1.clone());
+    if ok1 { if let Some(k) = judge_jit_trace(dag, d1, &dag.vs, inp, samples, &tr1) { notes.push(format!("kind={k} level=1")); } }
     levels.push(Level { text: String::new(), outs: o1, slice_outs: s1, ok: ok1, vars: var_order(&f1), noutputs: f1.output_count() });
     write!(text, " | tr2 {}", fmt_trace(&tr1)).unwrap();
     if !ok1 { return (text, levels); }
@@ -288,8 +324,11 @@ pub fn run(seed: u64, count: usize, outdir: &str, jit: bool) -> std::io::Result<
     let mut distinct = std::collections::HashSet::new();
     let mut samples_out: Vec<String> = vec![];
     let mut hist: BTreeMap<String, usize> = BTreeMap::new();
+    let only: Option<usize> = std::env::var("FV_ONLY").ok().and_then(|v| v.parse().ok());
+    let reps: usize = std::env::var("FV_REPS").ok().and_then(|v| v.parse().ok()).unwrap_or(1);
     for ci in 0..count {
         let mut r = rng.fork();
+        if let Some(o) = only { if o != ci { cases.push('\n'); impls.push('\n'); continue; } }
         let choice_heavy = r.chance(0.7);
         let cfg = DagCfg {
             max_ops: *r.pick(&[6, 15, 40, 80]),
@@ -316,7 +355,12 @@ pub fn run(seed: u64, count: usize, outdir: &str, jit: bool) -> std::io::Result<
         };
         // ---- implementation
         let mut given: Vec<Option<Vec<u8>>> = vec![];
-        let (text, levels) = if use_jit { run_jit(&dag, &inp, &samples, &mut given) } else { vm_nm!(n, m, &dag, &inp, &samples) };
+        let mut notes: Vec<String> = vec![];
+        for _ in 1..reps { let mut g2 = vec![]; let mut n2 = vec![]; let (t2, l2) = run_jit(&dag, &inp, &samples, &mut g2, &mut n2);
+            let (t1, l1) = run_jit(&dag, &inp, &samples, &mut vec![], &mut vec![]);
+            if t1 != t2 { eprintln!("NONDETERMINISTIC text"); }
+            for (a, b) in l1.iter().zip(&l2) { if format!("{:?}", a.slice_outs) != format!("{:?}", b.slice_outs) { eprintln!("NONDETERMINISTIC slice {:?} vs {:?} (point {:?})", a.slice_outs, b.slice_outs, a.outs); } } }
+        let (text, levels) = if use_jit { run_jit(&dag, &inp, &samples, &mut given, &mut notes) } else { vm_nm!(n, m, &dag, &inp, &samples) };
         impls.push_str(&text); impls.push('\n');
         // ---- case line (for the JIT the traces it returned are part of the case: the model
         // simplifies with them and judges them against its own, see cmds.ml)
@@ -341,6 +385,7 @@ pub fn run(seed: u64, count: usize, outdir: &str, jit: bool) -> std::io::Result<
         // ---- property oracle
         let kindtag = format!("backend={} mode={} n={n} m={m} outputs={}", if use_jit { "jit" } else { "vm" }, if interval_mode { "interval" } else { "point" }, dag.roots.len());
         // a register budget below 3 may fail loudly (C01); it must never miscompile
+        for nt in &notes { fails += 1; writeln!(oracle, "FAIL case={ci} {nt} {kindtag}").unwrap(); }
         let small_ok = (text.contains("s1 err") && m < 3) || (text.contains("s2 err") && n < 3);
         if small_ok {
         } else if text.contains("s1 err") || text.contains("s2 err") {
@@ -360,10 +405,12 @@ pub fn run(seed: u64, count: usize, outdir: &str, jit: bool) -> std::io::Result<
                 }
                 if !l.slice_outs.is_empty() && !base.slice_outs.is_empty() {
                     let z = |v: &Vec<f32>| fmt_bits(&v.iter().map(|x| if *x == 0.0 { 0.0 } else { *x }).collect::<Vec<f32>>());
-                    let same = base.outs.iter().zip(&l.slice_outs).all(|(a, b)| z(a) == z(b));
+                    // same evaluator kind on the original and on the simplified function (across kinds the sign of a zero out of min / max,
+                    // and whatever atan2 / division make of it, may differ: C02)
+                    let same = base.slice_outs.iter().zip(&l.slice_outs).all(|(a, b)| z(a) == z(b));
                     if !same {
                         fails += 1;
-                        writeln!(oracle, "FAIL case={ci} kind=slice-value-changed level={li} {kindtag}").unwrap();
+                        writeln!(oracle, "FAIL case={ci} kind=slice-value-changed level={li} {kindtag} original {:?} simplified {:?}", base.slice_outs.iter().map(|a| z(a)).collect::<Vec<_>>(), l.slice_outs.iter().map(|a| z(a)).collect::<Vec<_>>()).unwrap();
                     }
                 }
                 // the child keeps the parent's variable numbering (it may only drop variables) and output count
@@ -392,4 +439,42 @@ pub fn run(seed: u64, count: usize, outdir: &str, jit: bool) -> std::io::Result<
     std::fs::write(format!("{outdir}/stats.json"), js)?;
     let _ = op_key;
     Ok(if fails > 0 { 1 } else { 0 })
+}
+
+/// The failing input recorded as the C04 known finding jit-trace-from-unsound-interval: f = min(u * v, -5) with
+/// u = x * 1e30 * 1e30 and v = w * 1e30 * 1e30 + 1 on x in [0, 1], w in [-1, 0] (w is the Y axis).
+pub fn demo() {
+    use fidget_core::context::Context;
+    let mut ctx = Context::new();
+    let x = ctx.x(); let w = ctx.y();
+    let a = ctx.mul(x, 1e30).unwrap(); let u = ctx.mul(a, 1e30).unwrap();
+    let b = ctx.mul(w, 1e30).unwrap(); let b = ctx.mul(b, 1e30).unwrap(); let v = ctx.add(b, 1.0).unwrap();
+    let p = ctx.mul(u, v).unwrap();
+    let f = ctx.min(p, -5.0).unwrap();
+    let dag = Dag { ctx, roots: vec![f], vs: vec![] };
+    let bx = vec![(0.0f32, 1.0f32), (-1.0, 0.0), (0.0, 0.0)];
+    let pt = vec![1.0f32, -1.0, 0.0];
+    macro_rules! go { ($f:expr, $name:expr, $dag:expr, $bx:expr, $pt:expr) => {{
+        let (dag, bx, pt) = (&$dag, &$bx, &$pt);
+        let f0 = $f;
+        let (iv, tr) = interval_eval(&f0, &dag.vs, &bx).unwrap();
+        let (v0, _) = point_eval(&f0, &dag.vs, &pt).unwrap();
+        println!("{}: interval [{}, {}] trace {:?}; value at the point = {}", $name, iv[0].lower(), iv[0].upper(), tr, v0[0]);
+        if let Some(t) = tr { let t0 = make_trace(&t); let mut ws = Default::default();
+            let f1 = f0.simplify(&t0, Default::default(), &mut ws).unwrap();
+            let (v1, _) = point_eval(&f1, &dag.vs, &pt).unwrap();
+            println!("{}: simplified value at the point = {}", $name, v1[0]); }
+    }} }
+    go!(GenericVmFunction::<255>::new(&dag.ctx, &dag.roots).unwrap(), "vm", dag, bx, pt);
+    go!(JitFunction::new(&dag.ctx, &dag.roots).unwrap(), "jit", dag, bx, pt);
+    // the known finding nan-hidden-by-interval: g = min(max(x * y, 5), 3) on x in [-1, 1], y = inf; at x = 0 the product is NaN
+    let mut ctx = Context::new();
+    let x = ctx.x(); let y = ctx.y();
+    let p = ctx.mul(x, y).unwrap(); let m = ctx.max(p, 5.0).unwrap(); let g = ctx.min(m, 3.0).unwrap();
+    let dag = Dag { ctx, roots: vec![g], vs: vec![] };
+    let bx = vec![(-1.0f32, 1.0f32), (f32::INFINITY, f32::INFINITY), (0.0, 0.0)];
+    let pt = vec![0.0f32, f32::INFINITY, 0.0];
+    println!("g = min(max(x * y, 5), 3), x in [-1, 1], y = inf, evaluated at x = 0:");
+    go!(GenericVmFunction::<255>::new(&dag.ctx, &dag.roots).unwrap(), "vm", dag, bx, pt);
+    go!(JitFunction::new(&dag.ctx, &dag.roots).unwrap(), "jit", dag, bx, pt);
 }
